@@ -124,6 +124,9 @@ type SDRRecord struct {
 type BMC struct {
 	Log []Event
 
+	// BareCC, when non-zero: every response consists of this completion code only (no echoed body code either)
+	BareCC uint8
+
 	// ForceCC, when non-zero, replaces the completion code of every response; the response data stays
 	ForceCC uint8
 
@@ -451,6 +454,11 @@ func (b *BMC) handleMessage(s *Session, m []byte, ev *Event) []byte {
 		h = b.builtins[key]
 	}
 	var rsp []byte
+	if b.BareCC != 0 {
+		ev.CC = b.BareCC
+		ev.RspData = nil
+		return b.response(msg, ev.CC, nil)
+	}
 	if b.Intercept != nil {
 		if handled, cc, r := b.Intercept(key, s, msg.RsLUN, clone(data)); handled {
 			ev.CC = cc
